@@ -125,6 +125,7 @@ func robustUniverse(tier string) []*V {
 		VStrMap(SKV("a", i(1)), SKV("b", i(2))), VMap(TInt(0), TAny, KV(i(1), s("x"))), VRange(3, 1),
 		VAnys(VStrMap(SKV("name", s("b")), SKV("abc", i(1))), VStrMap(SKV("name", s("a")))), // objects, one lacking a key
 		VInt(4, 0), VInt(5, 0), // zeros of other integer types (int64, uint): guards written as `b == 0` on an `any` miss them
+		VAnys(VNilPtr(), VPtr(i(7))), // pointers as ELEMENTS (printing, joining, sorting them dereferences: a nil one must not panic)
 	}
 	if tier != "thorough" {
 		return u
